@@ -1,5 +1,6 @@
 """C17 - a failing callback leaves the explainer's estimates untouched (symbolic crash index)."""
 from symx import And, Or, Not, Implies, eq, same_term
+from symx import HarnessError
 from symx.stubs import patched, UFModel, UFLoss, FaultPlan, Boom, BOOM_TYPES
 from .common import guarded, total, sym_row, names_for
 from .expl import build_incremental, build_storage, LoggingImputer
@@ -63,6 +64,10 @@ def configs(tier):
             add(group='batch', cls=cls, d=2, n=2, q=1, orig=True, _cost=300)
         if tier == 'thorough':
             add(group='batch', cls=cls, d=2, n=3, q=1, orig=False, _cost=30000)
+        # long explanation runs: hundreds of stored rows, the failing callback is one of the last ones (fork-free: one feature,
+        # default imputer, so the only forks are the positions of the fault)
+        for n in ((260,) if tier == 'quick' else (260, 520, 1030)):
+            add(group='batch', cls=cls, d=1, n=n, q=1, orig=False, late=24, imputer='default', _cost=2000)
     return cfgs
 
 
@@ -178,11 +183,18 @@ def _batch(env, cfg):
     cls = CLASSES[cfg['cls']]
     d, n, q = cfg['d'], cfg['n'], cfg['q']
     names = names_for('str', d)
-    plan = FaultPlan(env, enabled=True, exc=cfg.get('exc', 'Exception'))
+    late = cfg.get('late')
+    # a run over n rows makes 2 + 5 n callback invocations (storage update, batch prediction; per row: loss, imputer,
+    # model, model-output, loss); with `late` only the last `late` of them may fail
+    total_ticks = 1 + n * 5 if late else 0      # measured for d = 1, q = 1, default imputer; re-checked on the fault-free path below
+    plan = FaultPlan(env, enabled=True, exc=cfg.get('exc', 'Exception'), lo=max(0, total_ticks - late) if late else 0)
     plan.fired_at = ('off', 'off')          # armed only for the call under test
     model = UFModel(env, names, faults=plan)
     loss = UFLoss(env, faults=plan)
     kw = {'n_inner_samples': q}
+    if cfg.get('imputer') == 'default':
+        from ixai.imputer import DefaultImputer
+        kw['imputer'] = DefaultImputer(model, {f: 0.0 for f in names})
     if cls is IntervalSage:
         kw.update(interval_length=1, storage_length=n)
     ex = guarded(env, 'ctor', cls, model, names, loss, **kw)
@@ -213,6 +225,9 @@ def _batch(env, cfg):
     except Exception as e:  # noqa: BLE001
         env.fail(f"explain_one:raises:{type(e).__name__}", str(e), detail=str(e)[:200])
         return
+    if late and plan.fired_at is None and raised is None and plan.i != total_ticks:
+        raise HarnessError(f"a fault-free run made {plan.i} callback invocations, the harness expected {total_ticks}: "
+                           f"the 'last {late} invocations' would not be the last ones")
     if plan.fired_at is None:
         env.claim('no_fault_no_exception', raised is None)
         return
